@@ -89,7 +89,7 @@ func (tic *TextInputCursor) Close() {}
 
 
 func (tic *TextInputCursor) LogError(message string) {
-	tic.messages = append(tic.messages, fmt.Sprintf(message + " in %s line %d", tic.filename,
+	tic.messages = append(tic.messages, fmt.Sprintf("%s in %s line %d", message, tic.filename,
 	tic.lineno))
 }
 
